@@ -14,7 +14,9 @@ CHECKS = {
             "driven by exhaustive short token sequences, token mutants and noise",
             "Every parse() outcome of the workload is classified by a monitor (FileAST / ParseError with a "
             "file:line:col prefix / anything else) and its work is bounded by a deterministic step counter; "
-            "exhaustive for all token sequences up to the stated length in six contexts, statistical beyond.",
+            "exhaustive for all token sequences up to the stated length in six contexts, for every character-level prefix of the "
+            "small corpus programs and for a product of function-definition-shaped slot fillers; very long single tokens; "
+            "statistical beyond.",
             "CPython 3.12 sys.monitoring; inputs nested <= 25 deep so RecursionError is never legitimate here.",
             "DESIGN.md section 2, C06"),
     "C01": ("exploration",
@@ -50,9 +52,9 @@ CHECKS = {
     "C04": ("exploration",
             "reference-model monitor: declaration histories with a model of C99 6.2.1 scoping; the reading of probe "
             "statements (declaration/cast/type operand vs expression) is observed in the AST; gcc validates the model",
-            "Exhaustive over all legal event sequences of length <= 3 (quick) / <= 4 (thorough) over 17 event kinds x 2 names "
-            "x 2 initial states (plus 6 parameter-list styles for short histories), random longer histories; four known "
-            "scoping findings are attributed only when the trigger is present and the renamed twin reads correctly.",
+            "Exhaustive over all legal event sequences of length <= 3 (quick; thorough adds a seed-selected half of length 4) "
+            "over 25 event kinds x 2 names x 2 initial states (plus 13 parameter-list styles for short histories), random "
+            "longer histories; four known scoping findings are attributed only when the trigger is present and the renamed twin reads correctly.",
             "ref.scope validated by gcc -std=c99 -fsyntax-only on a sample each run (programs valid only under the expected readings).",
             "DESIGN.md section 2, C04"),
     "C05": ("exploration",
@@ -128,11 +130,14 @@ CHECKS = {
             "Solo results come from one fresh interpreter per program, so module-level caches cannot pollute the oracle.",
             "DESIGN.md section 2, C13"),
     "C16": ("exploration",
-            "deterministic step-counter monitor (sys.monitoring PY_START inside pycparser) over scalable input families at "
-            "doubling sizes; CPU-time monitor with a re-run-alone confirmation for the lexer's regex families",
-            "About 80 repetition/nesting/composition families and prefixes of the benchmark files are parsed at k = 8..256 "
-            "(quick) / 8..1024 (thorough); growth ratio, per-character step budget and (for regexes) CPU seconds decide.",
-            "RecursionError on deep nests is tolerated; regex thresholds have >= 40x margin.",
+            "deterministic work-counter monitor (sys.monitoring: PY_START in every code object run on behalf of parse() plus "
+            "backward JUMP events, i.e. loop iterations, inside pycparser) over scalable input families at doubling sizes; "
+            "kernel CPU budget + re-run-alone confirmation for the lexer's regex families",
+            "About 150 repetition/nesting/composition families and prefixes of the benchmark files are parsed at k = 8..512 "
+            "(quick) / 8..1024 (thorough); growth ratio (two rules), per-character step budget and (for regexes) CPU seconds "
+            "decide; the two open quadratic findings K46/K47 are attributed only when the input really nests and the series "
+            "without the loop iterations of the two named functions is linear.",
+            "RecursionError on deep nests is tolerated; regex thresholds have >= 25x margin.",
             "DESIGN.md section 2, C16"),
     "C14": ("exploration",
             "specification monitor: sentinel-value sweep of every node class against an independent reader of "
@@ -140,7 +145,8 @@ CHECKS = {
             "on live ASTs",
             "Exhaustive over the 49 classes x absent-children subsets x sequence shapes; live ASTs from the corpus "
             "and accepted mutants are traversed under counting visitors whose expected counts come from __slots__ "
-            "and the spec, not from children().",
+            "and the spec, not from children(); slot discipline (child fields hold Nodes, sequence fields lists of Nodes) "
+            "and visitors that edit the list they are called from are monitored on the same trees.",
             "_c_ast.cfg is the specification.",
             "DESIGN.md section 2, C14"),
     "C15": ("exploration",
